@@ -28,12 +28,13 @@ def real_frames(msgs):
     return ids, frames
 
 
-def write_wire_mc(d, lens, maxreads, eofs, record, name):
+def write_wire_mc(d, lens, maxreads, eofs, record, name, cuts=None):
     cfg = os.path.join(d, f"{name}.cfg")
     with open(os.path.join(d, f"{name}.tla"), "w") as f:
         f.write(f"---- MODULE {name} ----\nEXTENDS Wire\nMCLens == <<{', '.join(str(x) for x in lens)}>>\n"
-                f"MCEof == {{{', '.join(str(x) for x in eofs)}}}\n====\n")
-    lines = ["INIT Init", "NEXT Next", "CONSTANTS", "  Lens <- MCLens", f"  MaxReads = {maxreads}", "  EofAt <- MCEof",
+                f"MCEof == {{{', '.join(str(x) for x in eofs)}}}\n"
+                f"MCCuts == {('{' + ', '.join(str(x) for x in cuts) + '}') if cuts is not None else '0..Total'}\n====\n")
+    lines = ["INIT Init", "NEXT Next", "CONSTANTS", "  Lens <- MCLens", f"  MaxReads = {maxreads}", "  EofAt <- MCEof", "  Cuts <- MCCuts",
              f"  RecordHist = {'TRUE' if record else 'FALSE'}", "INVARIANT InOrderIntact", "INVARIANT AllComplete",
              "INVARIANT FailOnlyOnCut", "CHECK_DEADLOCK FALSE"]
     if record:
@@ -88,7 +89,7 @@ def repr_msg(m):
     import numpy as np
     if isinstance(m, np.ndarray):
         return "A" + repr(m.tolist())
-    return type(m).__name__ + repr(m)
+    return type(m).__name__ + (repr(m) if not (isinstance(m, str) and len(m) > 100) else f"<{len(m)} chars {hash(m)}>")
 
 
 def eof_classes(lens):
@@ -105,7 +106,8 @@ def eof_classes(lens):
 
 def run_wire(ev, vd, d, thorough):
     import numpy as np
-    configs = [[1], ["ab", [1, 2]], [None, "x", 7]]
+    big = "x" * 70000            # a body larger than 64 KiB followed by small frames (reads merge across frames)
+    configs = [[1], ["ab", [1, 2]], [None, "x", 7], [big, 5, "yz"]]
     if thorough:
         configs += [[np.arange(3), "hello"], ["", 0, "abc"]]
     traces, meta = [], {}
@@ -114,7 +116,10 @@ def run_wire(ev, vd, d, thorough):
         lens = [len(f) - 20 for f in frames]
         eofs, total = eof_classes(lens)
         # design-level: all fragmentations into <= 3 reads, stream ends at any boundary class
-        mod, cfg = write_wire_mc(d, lens, 3, eofs, False, "MCWire")
+        cuts = None
+        if total > 400:        # long stream: reads end only at the boundary classes (and 3 offsets inside the big body)
+            cuts = sorted(set(eofs) | {total // 3, total // 2, 65536 + 20, 65536 + 21})
+        mod, cfg = write_wire_mc(d, lens, 3, eofs, False, "MCWire", cuts)
         r = run_tlc(mod, cfg, workers=16, coverage=True, timeout=3000)
         ev.add_tlc(f"Wire.tla frames {lens}: every cut into <= 3 reads x end of stream at {len(eofs)} boundary offsets", r,
                    "invariants InOrderIntact AllComplete FailOnlyOnCut")
@@ -124,7 +129,7 @@ def run_wire(ev, vd, d, thorough):
         sel = eofs if (len(msgs) <= 2 or thorough) else sorted(set(eofs[::3]) | {total})
         eof_sets = [sel]
         for es in eof_sets:
-            mod, cfg = write_wire_mc(d, lens, 3 if (total <= 80 or thorough) else 2, es, True, "MCWireR")
+            mod, cfg = write_wire_mc(d, lens, 3 if (total <= 80 or thorough or cuts) else 2, es, True, "MCWireR", cuts)
             rr = run_tlc(mod, cfg, workers=1, timeout=3000)
             ev.cov["states"] += rr.distinct
             ev.cov["transitions"] += rr.generated
